@@ -167,9 +167,22 @@ def match_rows(facts, pm, rl, role_list, weak_out=None):
         if not key:
             raise AnchorError("role %s not found in the crate" % role)
         role_refs = [r for r in reference_rows(rl) if r["role"] == role]
-        for row in models.rejections(facts, key):
-            if row["kind"] in ("ok", "some"):
-                continue
+        pending = [r for r in models.rejections(facts, key) if r["kind"] not in ("ok", "some")]
+        rows_ = []
+        # a refusal handed on from another local function that is not itself a documented step (`insert` written through
+        # `entry`, a helper wrapping the key check) is replaced by that function's own refusals, arguments substituted
+        guard = 0
+        while pending and guard < 40:
+            guard += 1
+            row = pending.pop(0)
+            if row["kind"] in ("propagate", "tail") and row.get("callee") in facts.bodies and row.get("depth", 0) < 3 \
+                    and not any(r["kind"] in ("propagate", "tail") and callee_of_ref(rl, r) == row["callee"] for r in role_refs):
+                sub = expand_row(facts, row)
+                if sub is not None:
+                    pending = sub + pending
+                    continue
+            rows_.append(row)
+        for row in rows_:
             desc = describe_row(row)
             hit = None
             weak = None
@@ -192,6 +205,42 @@ def match_rows(facts, pm, rl, role_list, weak_out=None):
                 extra.append((role, desc, row["site"], key))
     missing = [(r["role"], describe_ref(r), "", rl.get(r["role"], "")) for i, r in enumerate(ref) if i not in used]
     return matched, missing, extra
+
+
+def subst_inputs(x, mapping):
+    if isinstance(x, tuple):
+        if len(x) == 2 and x[0] == "Input" and x[1] in mapping:
+            return mapping[x[1]]
+        return tuple(subst_inputs(y, mapping) for y in x)
+    return x
+
+
+def expand_row(facts, row):
+    """rows of the callee of a propagate/tail row, expressed in the caller's terms; None if that is not possible"""
+    callee = row["callee"]
+    args = row.get("args", ())
+    mapping = {i + 1: a for i, a in enumerate(args)}
+    out = []
+    for sr in models.rejections(facts, callee):
+        if sr["kind"] in ("ok", "some"):
+            continue
+        if sr["kind"] == "other":
+            return None
+        nr = dict(sr)
+        nr["fn"] = row.get("fn")
+        nr["site"] = row["site"]
+        nr["bb"] = row["bb"]
+        nr["depth"] = row.get("depth", 0) + 1
+        nr["via_callee"] = callee
+        own = [a for a in row.get("catoms", []) if not (a[0] == "callres" and a[1] == callee and a[-1] in ("Err?", "Err", "None"))]
+        nr["catoms"] = own + [subst_inputs(a, mapping) for a in sr.get("catoms", [])]
+        nr["gatoms"] = []
+        if "triggers" in sr:
+            nr["triggers"] = [subst_inputs(a, mapping) for a in sr["triggers"]]
+        if "args" in sr:
+            nr["args"] = tuple(subst_inputs(a, mapping) for a in sr["args"])
+        out.append(nr)
+    return out
 
 
 def describe_row(row):
